@@ -15,14 +15,7 @@ use serde_json::{json, Value};
 
 pub const CAPACITY: usize = 256;
 
-/// Best positions found by earlier maximisation runs (seeds for the annealer).
-pub const MAX_SEEDS: &[&str] = &[
-    "R6R/3Q4/1Q4Q1/4Q3/2Q4Q/Q4Q2/pp1Q4/kBNN1KB1 w - - 0 1",
-    "3Q4/1Q4Q1/4Q3/2Q4R/Q4Q2/3Q4/NR4Q1/kN1BB1K1 w - - 0 1",
-    "1Q3Q2/4Q3/2Q4Q/Q4Q2/3Q4/1Q4Q1/5Q2/k2Q2K1 w - - 0 1",
-    "Q1Q5/3Q2Q1/1Q6/4Q2Q/2Q5/Q4Q2/3Q2pp/1K2Q1k1 w - - 0 1",
-    "1Q4Qq/4Q3/Q1Q4Q/Q4Q2/q2Q4/KQ4Q1/bp2Q3/kBQ4Q w - - 0 1",
-];
+pub use crate::gen::positions::MAX_SEEDS;
 
 fn count_all(b: &Board) -> [usize; 5] {
     let mut v: Vec<Move> = Vec::with_capacity(300);
@@ -268,6 +261,45 @@ fn gen_heavy_case(cur: &mut crate::gen::Cursor) -> Value {
     json!({"fen": p.fen(), "src": src})
 }
 
+/// Appending to a caller-supplied fixed-capacity list: once the 256 slots are used up the safe sink must refuse
+/// (panic) instead of writing past the buffer. The list sits in front of padding inside a heap allocation so that a
+/// stray write cannot hurt the harness before it is noticed.
+fn append_check(case: &Value, stats: &mut Stats) -> CheckResult {
+    use owlchess::MoveList;
+    let (b, r) = match case_board(case, stats)? {
+        Some(x) => x,
+        None => return Ok(()),
+    };
+    let per = count_all(&b)[0];
+    if per == 0 {
+        return Ok(());
+    }
+    #[repr(C)]
+    struct Guarded(MoveList, [u64; 512]); // repr(C): the padding really follows the list in memory
+    let mut boxed: Box<Guarded> = Box::new(Guarded(MoveList::new(), [0x5a5a_5a5a_5a5a_5a5a; 512]));
+    let rounds = CAPACITY / per + 1;
+    let mut panicked = false;
+    for _ in 0..rounds {
+        let res = std::panic::catch_unwind(std::panic::AssertUnwindSafe(|| semilegal::gen_all_into(&b, &mut boxed.0)));
+        if res.is_err() {
+            panicked = true;
+            break;
+        }
+    }
+    let len = boxed.0.len();
+    ensure!(len <= CAPACITY, "a 256-entry MoveList holds {} moves after appending {} x {} moves", len, rounds, per);
+    ensure!(boxed.1.iter().all(|x| *x == 0x5a5a_5a5a_5a5a_5a5a), "memory behind the MoveList was overwritten");
+    ensure!(panicked, "appending {} x {} moves to a 256-entry MoveList neither refused nor grew", rounds, per);
+    // what was written before the refusal is a prefix of repeated generator output
+    let one: Vec<Move> = semilegal::gen_all(&b).iter().copied().collect();
+    for (i, m) in boxed.0.iter().enumerate() {
+        ensure!(*m == one[i % one.len()], "entry {} of the appended list is corrupted", i);
+    }
+    stats.label("append_refused_at_capacity");
+    stats.nontrivial(&r.rep_key());
+    Ok(())
+}
+
 // ------------------------------------------------------------------------------------------
 // magic index bounds (exhaustive over the library's own masks)
 
@@ -337,7 +369,9 @@ pub fn property() -> Property {
                mutated maximal positions) run through every generator and query (fixed-capacity lists, attack queries for 64 squares, \
                make/unmake of every semilegal move, SAN of every legal move); in the `checked` configuration (debug assertions + \
                overflow checks) an out-of-range get_unchecked / push_unchecked / unreachable_unchecked / pointer offset panics or aborts \
-               and is attributed to the case. (c) magic_index_bounds (exhaustive): for every square and every subset of the library's \
+               and is attributed to the case. (b') append_to_full_list: the *_into generators \
+               appending to a caller-supplied 256-entry MoveList until it is full must refuse (panic) rather than write past it. \
+               (c) magic_index_bounds (exhaustive): for every square and every subset of the library's \
                own mask, with and without all irrelevant bits: offset + index < table length, via the read-only hook; masks equal the \
                relevant blocker squares. Non-trivial = position with >= 150 (maximise) / >= 100 (exercise) semilegal moves; lookup family.",
         assumptions: &[
@@ -362,6 +396,15 @@ pub fn property() -> Property {
                 check: exercise_check,
                 configs: Configs::Both,
                 required: &["moves>=150", "in_check", "ep_mark", "castling_right"],
+                regressions: &[],
+                exhaustive: false,
+            },
+            SubCheck {
+                name: "append_to_full_list",
+                driver: Driver::Generated { gen: gen_heavy_case, genome_len: 192, quick: 60_000, thorough: 1_500_000 },
+                check: append_check,
+                configs: Configs::Both,
+                required: &["append_refused_at_capacity"],
                 regressions: &[],
                 exhaustive: false,
             },
